@@ -185,7 +185,7 @@ func runReplayTest(pkg, src, work string) (string, bool) {
 	os.WriteFile(ovFile, ov, 0o644)
 	ctx, cancel := context.WithTimeout(context.Background(), 120*time.Second)
 	defer cancel()
-	args := []string{"test", "-overlay", ovFile, "-vet=off", "-count=1", "-timeout", "60s", "-run", "TestReplayVerif", "./" + pkg}
+	args := []string{"test", "-overlay", ovFile, "-vet=off", "-count=1", "-v", "-timeout", "60s", "-run", "TestReplayVerif", "./" + pkg}
 	if strings.Contains(src, "//replay:race") {
 		args = append(args[:1], append([]string{"-race"}, args[1:]...)...)
 	}
